@@ -3,45 +3,52 @@
 From TxV Require Import Core.Base Core.Show Model.RepoDefs Gen.SrcRepo Model.Repo.
 Open Scope string_scope.
 
-Definition show_tok (c : cfg) (s : state) (m : nat) : string :=
+(* nf = number of files: keys and file numbers >= nf are the invented names 'anonymousN' of models loaded
+   from a string (shown as aN; such a model is shown as s@<op>, errors located in it carry no file name) *)
+Definition show_key (nf k : nat) : string := if Nat.ltb k nf then show_nat k else "a" ++ show_nat (k - nf).
+Definition show_efile (nf k : nat) : string := if Nat.ltb k nf then show_nat k else "?".
+Definition show_tok (nf : nat) (c : cfg) (s : state) (m : nat) : string :=
   if Nat.ltb m (List.length (cbuiltins c)) then "b" ++ show_nat m
   else match nth_error (heap s) m with
-       | Some i => "f" ++ show_nat (mfile i) ++ "@" ++ show_nat (mop i)
+       | Some i => if Nat.ltb (mfile i) nf then "f" ++ show_nat (mfile i) ++ "@" ++ show_nat (mop i) else "s@" ++ show_nat (mop i)
        | None => "?"
        end.
-Definition show_dict (c : cfg) (s : state) (d : list (nat * nat)) : string :=
-  sjoin "," (map (fun kv => show_nat (fst kv) ++ ">" ++ show_tok c s (snd kv)) d).
-Definition show_target (c : cfg) (s : state) (t : option (nat * nat)) : string :=
-  match t with None => "None" | Some (m, i) => show_tok c s m ++ "." ++ show_nat i end.
+Definition show_dict (nf : nat) (c : cfg) (s : state) (d : list (nat * nat)) : string :=
+  sjoin "," (map (fun kv => show_key nf (fst kv) ++ ">" ++ show_tok nf c s (snd kv)) d).
+Definition show_target (nf : nat) (c : cfg) (s : state) (t : option (nat * nat)) : string :=
+  match t with None => "None" | Some (m, i) => show_tok nf c s m ++ "." ++ show_nat i end.
 Definition targets_of (m : nat) (s : state) : list (option (nat * nat)) :=
   match dget m (targets s) with Some l => l | None => map (fun _ => None) (refs_of m s) end.
-Definition show_model (c : cfg) (s : state) (m : nat) : string :=
-  show_tok c s m ++ "{" ++ show_dict c s (local_of m s) ++ "}{"
-  ++ sjoin "," (map (show_target c s) (targets_of m s)) ++ "}".
-Definition show_err (e : err) : string :=
+Definition show_model (nf : nat) (c : cfg) (s : state) (m : nat) : string :=
+  show_tok nf c s m ++ "{" ++ show_dict nf c s (local_of m s) ++ "}{"
+  ++ sjoin "," (map (show_target nf c s) (targets_of m s)) ++ "}".
+Definition show_err (nf : nat) (e : err) : string :=
   match e with
-  | ESyntax f => "err:syntax:" ++ show_nat f | ENoFile => "err:nofile" | EUnres f => "err:unresolved:" ++ show_nat f
-  | EObj f => "err:obj:" ++ show_nat f | EMp f => "err:mp:" ++ show_nat f | EFuel => "FUEL" | EMissing f => "MISSING:" ++ show_nat f
+  | ESyntax f => "err:syntax:" ++ show_efile nf f | ENoFile => "err:nofile" | EUnres f => "err:unresolved:" ++ show_efile nf f
+  | EObj f => "err:obj:" ++ show_efile nf f | EMp f => "err:mp:" ++ show_efile nf f | EFuel => "FUEL" | EMissing f => "MISSING:" ++ show_nat f
   end.
-Definition show_load (c : cfg) (r : (err + nat) * state) : string :=
+Definition show_load (nf : nat) (c : cfg) (r : (err + nat) * state) : string :=
   let '(res, s) := r in
-  let g := if cglobal c then show_dict c s (allm s) else "-" in
+  let g := if cglobal c then show_dict nf c s (allm s) else "-" in
   let rd := sjoin "," (map show_nat (reads s)) in
   match res with
-  | inr m => "ok|" ++ rd ++ "|" ++ show_tok c s m ++ "|" ++ sjoin ";" (map (show_model c s) (included m s))
-             ++ "|" ++ show_dict c s (allm s) ++ "|" ++ g
-  | inl e => show_err e ++ "|" ++ rd ++ "|-|"
-             ++ sjoin ";" (map (show_model c s) (if cglobal c then map snd (allm s) else [])) ++ "|-|" ++ g
+  | inr m => "ok|" ++ rd ++ "|" ++ show_tok nf c s m ++ "|" ++ sjoin ";" (map (show_model nf c s) (included m s))
+             ++ "|" ++ show_dict nf c s (allm s) ++ "|" ++ g
+  | inl e => show_err nf e ++ "|" ++ rd ++ "|-|"
+             ++ sjoin ";" (map (show_model nf c s) (if cglobal c then map snd (allm s) else [])) ++ "|-|" ++ g
   end.
 
+Definition at_op (s : state) (i : nat) : state := mkState (heap s) (allm s) (locals s) (constr s) (targets s) (reads s) i.
 Fixpoint run_ops (c : cfg) (fs : list file) (s : state) (i : nat) (ops : list op) : list string :=
   match ops with
   | [] => []
   | OWrite f fc :: t => "w" :: run_ops c (set_nth f fc fs) s (S i) t
   | OLoad f :: t =>
-      let s0 := mkState (heap s) (allm s) (locals s) (constr s) (targets s) (reads s) i in
-      let r := load_main fs c f s0 in
-      show_load c r :: run_ops c fs (snd r) (S i) t
+      let r := load_main fs c f (at_op s i) in
+      show_load (List.length fs) c r :: run_ops c fs (snd r) (S i) t
+  | OLoadStr fc :: t =>
+      let r := load_str fs c fc (at_op s i) in
+      show_load (List.length fs) c r :: run_ops c fs (snd r) (S i) t
   end.
 
 Definition run_case (glob lazy : bool) (builtins : list file) (fs : list file) (ops : list op) : string :=
